@@ -1,0 +1,20 @@
+//go:build verif
+
+// Verification shim (property C11): read-only view of the entries queued for
+// removal. Add-only, compiled only with -tags verif.
+package vacuum
+
+import "time"
+
+// VerifC11Entries returns the (vacuumAt, key) pairs of the queue, in queue order.
+func (mapVacuum *MapVacuum[K, V]) VerifC11Entries() ([]time.Time, []K) {
+	mapVacuum.entriesMutex.RLock()
+	defer mapVacuum.entriesMutex.RUnlock()
+	at := make([]time.Time, 0, len(mapVacuum.entries))
+	keys := make([]K, 0, len(mapVacuum.entries))
+	for _, entry := range mapVacuum.entries {
+		at = append(at, entry.vacuumAt)
+		keys = append(keys, entry.keyToVacuum)
+	}
+	return at, keys
+}
